@@ -400,6 +400,7 @@ def setup_repo_import():
     import warnings
     warnings.filterwarnings("ignore", category=SyntaxWarning)
     warnings.filterwarnings("ignore", category=DeprecationWarning)
+    warnings.simplefilter("ignore")
     if REPO not in sys.path:
         sys.path.insert(0, REPO)
     os.environ[GUARD] = "1"
